@@ -13,9 +13,10 @@ use risinglight_proto::rowset::BlockIndex;
 use risinglight_proto::rowset::block_checksum::ChecksumType;
 
 use super::block::{
-    BlockBuilder, BlockIterator, NullableBlockBuilder, NullableBlockIterator,
-    PlainPrimitiveBlockBuilder, PlainPrimitiveBlockIterator, decode_nullable_block,
-    decode_u32_slice, encode_32,
+    BlockBuilder, BlockIterator, DictBlockBuilder, DictBlockIterator, NullableBlockBuilder,
+    NullableBlockIterator, PlainBlobBlockBuilder, PlainBlobBlockIterator,
+    PlainPrimitiveBlockBuilder, PlainPrimitiveBlockIterator, RleBlockBuilder, RleBlockIterator,
+    decode_dict_block, decode_nullable_block, decode_rle_block, decode_u32_slice, encode_32,
 };
 use super::encode::PrimitiveFixedWidthEncode;
 use super::index::ColumnIndex;
@@ -24,7 +25,9 @@ use super::rowset::{DiskRowset, RowsetBuilder, RowsetWriter};
 use super::{
     ColumnBuilderOptions, DeleteVector, EncodeType, IOBackend, Manifest, SecondaryRowHandler,
 };
-use crate::array::{ArrayBuilder, ArrayImpl, ArrayToVecExt, I32ArrayBuilder};
+use crate::array::{
+    ArrayBuilder, ArrayImpl, ArrayToVecExt, I32Array, I32ArrayBuilder, StringArrayBuilder,
+};
 use crate::catalog::{ColumnCatalog, ColumnDesc};
 use crate::types::{DataType, DataValue, Interval};
 
@@ -317,6 +320,116 @@ pub fn nullable_block_read(
             }
             out.extend(builder.finish().to_vec());
         }
+        Ok(out)
+    })
+}
+
+fn drain<A: crate::array::Array, I: BlockIterator<A>>(
+    iter: &mut I,
+    skip: usize,
+    batch: usize,
+    mut new_builder: impl FnMut() -> A::Builder,
+    mut sink: impl FnMut(A),
+) {
+    iter.skip(skip);
+    loop {
+        let mut builder = new_builder();
+        let n = iter.next_batch(Some(batch), &mut builder);
+        if n == 0 {
+            break;
+        }
+        sink(builder.finish());
+    }
+}
+
+/// Build a run-length i32 block (not nullable) from `items`, read it back after skipping `skip`
+/// rows with batches of `batch` rows.
+pub fn rle_block_read(
+    items: &[i32],
+    skip: usize,
+    batch: usize,
+) -> Result<Vec<Option<i32>>, String> {
+    guarded(|| {
+        let inner = PlainPrimitiveBlockBuilder::<i32>::new(1 << 20);
+        let mut b = RleBlockBuilder::<I32Array, PlainPrimitiveBlockBuilder<i32>>::new(inner);
+        for it in items {
+            b.append(Some(it));
+        }
+        let data = bytes::Bytes::from(b.finish());
+        let (rle_num, rle_data, block_data) = decode_rle_block(data);
+        let block_iter = PlainPrimitiveBlockIterator::<i32>::new(block_data, rle_num);
+        let mut iter = RleBlockIterator::<I32Array, PlainPrimitiveBlockIterator<i32>>::new(
+            block_iter, rle_data, rle_num,
+        );
+        let mut out = vec![];
+        drain(
+            &mut iter,
+            skip,
+            batch,
+            I32ArrayBuilder::new,
+            |a: I32Array| out.extend(a.to_vec()),
+        );
+        Ok(out)
+    })
+}
+
+/// Same for a dictionary-encoded i32 block.
+pub fn dict_block_read(
+    items: &[i32],
+    skip: usize,
+    batch: usize,
+) -> Result<Vec<Option<i32>>, String> {
+    guarded(|| {
+        let inner = PlainPrimitiveBlockBuilder::<i32>::new(1 << 20);
+        let mut b = DictBlockBuilder::<I32Array, PlainPrimitiveBlockBuilder<i32>>::new(inner);
+        for it in items {
+            b.append(Some(it));
+        }
+        let data = bytes::Bytes::from(b.finish());
+        let (dict_num, dict_block, rle_block) = decode_dict_block(data);
+        let mut dict_builder = I32ArrayBuilder::new();
+        let mut dict_iter = PlainPrimitiveBlockIterator::<i32>::new(dict_block, dict_num);
+        let mut iter = DictBlockIterator::<I32Array, PlainPrimitiveBlockIterator<i32>>::new(
+            &mut dict_builder,
+            &mut dict_iter,
+            rle_block,
+            dict_num,
+        );
+        let mut out = vec![];
+        drain(
+            &mut iter,
+            skip,
+            batch,
+            I32ArrayBuilder::new,
+            |a: I32Array| out.extend(a.to_vec()),
+        );
+        Ok(out)
+    })
+}
+
+/// Same for a (non-nullable) varchar block.
+pub fn blob_block_read(
+    items: &[String],
+    skip: usize,
+    batch: usize,
+) -> Result<Vec<Option<String>>, String> {
+    guarded(|| {
+        let mut b = PlainBlobBlockBuilder::<str>::new(1 << 20);
+        for it in items {
+            b.append(Some(it.as_str()));
+        }
+        let data = bytes::Bytes::from(b.finish());
+        let mut iter = PlainBlobBlockIterator::<str>::new(data, items.len());
+        let mut out = vec![];
+        drain(
+            &mut iter,
+            skip,
+            batch,
+            StringArrayBuilder::new,
+            |a: crate::array::StringArray| {
+                out.extend(a.to_vec().into_iter().map(|x| x.map(|s| s.to_string())))
+            },
+        );
         Ok(out)
     })
 }
